@@ -127,27 +127,38 @@ async fn cell(set: Arc<CertSet>, state: String) -> Result<String, Fail> {
     }
     // first registrations of ever-new topics keep arriving while the signal is delivered
     let mut burst_tasks = Vec::new();
+    let registered = Arc::new(std::sync::atomic::AtomicUsize::new(0));
     if state.starts_with("burst-of-new-topics") {
-        for k in 0..8 {
-            let set = set.clone();
-            let tag = state.clone();
-            burst_tasks.push(tokio::spawn(async move {
-                let Ok(c) = RawConn::connect(addr, &set.ca, Some(&set.client)).await else { return };
-                let mut keep = Vec::new();
-                for i in 0..400 {
-                    let t = match TopicName::try_from(format!("/c16ns/{}x{k}x{i}", tag.replace('-', "_")).as_str()) {
-                        Ok(t) => t,
-                        Err(_) => return,
-                    };
-                    match tokio::time::timeout(Duration::from_secs(2), c.register(reg("publisher", &t))).await {
-                        Ok(Ok((s, _))) => keep.push(s),
-                        _ => return,
+        for k in 0..32 {
+            let Ok(c) = RawConn::connect(addr, &set.ca, Some(&set.client)).await else { continue };
+            let c = Arc::new(c);
+            // eight registrations in flight per connection, so that the server always has
+            // handlers queueing for its topic table
+            for w in 0..8 {
+                let c = c.clone();
+                let tag = state.clone();
+                let registered = registered.clone();
+                burst_tasks.push(tokio::spawn(async move {
+                    let mut keep = std::collections::VecDeque::new();
+                    // until the server goes away
+                    for i in 0..1_000_000 {
+                        let t = match TopicName::try_from(format!("/c16ns/{}x{k}x{w}x{i}", tag.replace('-', "_")).as_str()) {
+                            Ok(t) => t,
+                            Err(_) => return,
+                        };
+                        match tokio::time::timeout(Duration::from_secs(2), c.register(reg("publisher", &t))).await {
+                            Ok(Ok((s, _))) => {
+                                registered.fetch_add(1, std::sync::atomic::Ordering::Relaxed);
+                                keep.push_back(s)
+                            }
+                            _ => return,
+                        }
+                        if keep.len() > 4 {
+                            keep.pop_front();
+                        }
                     }
-                    if keep.len() > 60 {
-                        keep.drain(..30);
-                    }
-                }
-            }));
+                }));
+            }
         }
         tokio::time::sleep(Duration::from_millis(60)).await;
     }
@@ -167,6 +178,10 @@ async fn cell(set: Arc<CertSet>, state: String) -> Result<String, Fail> {
     }
     tokio::time::sleep(Duration::from_millis(150)).await;
     // SIGINT, as an operator would
+    let before_signal = registered.load(std::sync::atomic::Ordering::Relaxed);
+    if std::env::var("VERIF_DEBUG").is_ok() {
+        eprintln!("{state}: {before_signal} first registrations answered before the signal");
+    }
     unsafe {
         libc::kill(child.id() as i32, libc::SIGINT);
     }
@@ -241,32 +256,42 @@ async fn cell(set: Arc<CertSet>, state: String) -> Result<String, Fail> {
     }
 }
 
-fn cells() -> Vec<Value> {
-    ["burst-of-new-topics-1", "burst-of-new-topics-2", "burst-of-new-topics-3", "burst-of-new-topics-4", "burst-of-new-topics-5", "burst-of-new-topics-6", "slow-subscriber-two-topics", "no-topic", "publisher-only", "subscriber-only", "pubsub-idle", "pubsub-after-traffic", "pubsub-peers-gone", "replier-only", "requestor-only", "reqrep-both", "reqrep-rejected-replier", "everything", "registration-parked"]
-        .iter()
-        .enumerate()
-        .map(|(i, s)| json!({"cell": i, "state_at_sigint": s}))
-        .collect()
+fn cells(tier: &str) -> Vec<Value> {
+    let trials = if tier == "thorough" { 48 } else { 16 };
+    let bursts: Vec<String> = (1..=trials).map(|i| format!("burst-of-new-topics-{i}")).collect();
+    let mut all: Vec<&str> = bursts.iter().map(|s| s.as_str()).collect();
+    all.extend(REST);
+    all.iter().enumerate().map(|(i, s)| json!({"cell": i, "state_at_sigint": s})).collect()
 }
+
+const REST: [&str; 13] = ["slow-subscriber-two-topics", "no-topic", "publisher-only", "subscriber-only", "pubsub-idle", "pubsub-after-traffic", "pubsub-peers-gone", "replier-only", "requestor-only", "reqrep-both", "reqrep-rejected-replier", "everything", "registration-parked"];
 
 pub async fn run(tier: &str, replaying: bool) -> ! {
     let mut rep = Reporter::new("C16", tier, "fault_enumeration");
     let set = Arc::new(crate::certs::bundled());
-    let cs = filter_cells(cells());
-    let outs = run_matrix(cs, 4, |c| {
+    let cs = filter_cells(cells(tier));
+    // the burst repetitions one at a time (the race they are after needs the cores), the rest four at a time
+    let (bursts, rest): (Vec<Value>, Vec<Value>) = cs.into_iter().partition(|c| c["state_at_sigint"].as_str().unwrap().starts_with("burst-"));
+    let mut outs = Vec::new();
+    for (group, conc) in [(bursts, 1), (rest, 4)] {
         let set = set.clone();
-        async move {
-            let st = c["state_at_sigint"].as_str().unwrap().to_string();
-            (st != "no-topic", cell(set, st).await)
-        }
-    })
-    .await;
+        outs.extend(
+            run_matrix(group, conc, move |c| {
+                let set = set.clone();
+                async move {
+                    let st = c["state_at_sigint"].as_str().unwrap().to_string();
+                    (st != "no-topic", cell(set, st).await)
+                }
+            })
+            .await,
+        );
+    }
     let _ = net::LONG;
     rep.assume("the child process runs Server::listen() exactly as selium-server's main does; SIGINT is raised 150 ms after the state was set up; 20 s is the bound for exiting");
     finish(
         rep,
         outs,
-        "the real server in a child process, brought by raw peers into each of 14 states (six repetitions of: first registrations of ever-new topics arriving from 8 connections while the signal is delivered - schedules SAMPLED by repetition; two topics, one of whose routers holds two 200 KiB messages for a slowly accepting subscriber that starts reading at the signal and must receive at least the first; no topic; publisher only; subscriber only; idle pub/sub; pub/sub right after a burst of traffic; pub/sub whose peers have left; replier only; requestor only; both; a rejected second replier; pub/sub and request/reply topics together; a registration whose answer cannot be written because the peer grants no flow-control credit), then SIGINT: the process must exit with status 0 within 20 s",
+        "the real server in a child process, brought by raw peers into each of 14 states (16 repetitions, thorough 48, one at a time, of: first registrations of ever-new topics, 256 in flight over 32 connections, while the signal is delivered - schedules SAMPLED by repetition; two topics, one of whose routers holds two 200 KiB messages for a slowly accepting subscriber that starts reading at the signal and must receive at least the first; no topic; publisher only; subscriber only; idle pub/sub; pub/sub right after a burst of traffic; pub/sub whose peers have left; replier only; requestor only; both; a rejected second replier; pub/sub and request/reply topics together; a registration whose answer cannot be written because the peer grants no flow-control credit), then SIGINT: the process must exit with status 0 within 20 s",
         "complements the router-level exploration of C16 (close at every point of every schedule) with Server::shutdown itself: close_channel on every topic, join of all router tasks, endpoint close",
         json!({}),
         replaying,
